@@ -29,7 +29,7 @@ LEAN_RESERVED = {
     'using', 'calc', 'deriving', 'extends', 'private', 'protected', 'partial', 'mutual', 'macro',
     'syntax', 'notation', 'infix', 'infixl', 'infixr', 'prefix', 'postfix', 'set_option', 'attribute',
     's', 'k', 'kbreak', 'x', 'xs',      # names the generated code itself binds
-    'self', 'fuel', 'kexc', 'default',  # (methods of a class / raising mode)
+    'self', 'fuel', 'lfuel', 'kexc', 'default',  # (methods of a class / raising mode)
 }
 
 
@@ -393,6 +393,7 @@ class FnTranslator:
         self.cls = spec.get('cls')              # class description of a method with object state, or None
         self.raises = bool(spec.get('raises', False))      # raising mode: exceptions as values
         self.fuel = bool(spec.get('fuel', False))          # (mutually) recursive method: explicit call depth
+        self.loop_fuel = bool(spec.get('loop_fuel', False))    # `while` loops: explicit iteration bound `lfuel`
         self.hcount = 0                         # hoisted partial operations v1, v2 ...
         self.cls_state = {}
         self.cls_mut = False
@@ -781,6 +782,11 @@ class FnTranslator:
                 self._infer_block(st.body, nn | t_)
                 self._infer_block(st.orelse, nn | f_)
                 nn = flow_after_if(st, nn)
+            elif isinstance(st, ast.While):
+                inner = nn - assigned_names([st])
+                self._infer_block(st.body, inner | narrow(st.test)[0])
+                self._infer_block(st.orelse, inner)
+                nn = inner
             elif isinstance(st, ast.Try):
                 inner = nn - assigned_names([st])
                 self._infer_block(st.body, inner)
@@ -843,7 +849,7 @@ class FnTranslator:
         for n in ast.walk(ast.Module(body=self.body, type_ignores=[])):
             if isinstance(n, ast.Assign):
                 for tgt in n.targets:
-                    fresh_copy = (self.cls is not None and isinstance(n.value, ast.Call)
+                    fresh_copy = ((self.cls is not None or self.raises) and isinstance(n.value, ast.Call)
                                   and isinstance(n.value.func, ast.Name) and n.value.func.id == 'list')
                     if isinstance(tgt, ast.Name) and tgt.id in mutated and not isinstance(n.value, ast.List) \
                             and not fresh_copy:
@@ -1050,6 +1056,8 @@ class FnTranslator:
             return prefix + self._wrap(ex, 'if %s then\n%s\nelse\n%s' % (c, indent(a), indent(b)), ctx)
         if isinstance(st, ast.For):
             return self._for(st, rest, k, ctx, ex)
+        if isinstance(st, ast.While):
+            return self._while(st, rest, k, ctx)
         if isinstance(st, ast.Try):
             return self._try(st, rest, k, ctx)
         if isinstance(st, ast.Raise) and self.raises:
@@ -1091,6 +1099,54 @@ class FnTranslator:
             if not ok:
                 raise Unsupported(st, 'exception message that could itself raise')
         return exc.id
+
+    def _while(self, st: ast.While, rest, k, ctx):
+        """while c: body [else: E]  ->  a loop definition structurally recursive on an explicit bound `lfuel`
+        (one unit per test of the condition); `PyExc.OutOfFuel`, which no handler catches, when it runs out"""
+        if not (self.raises and self.loop_fuel):
+            raise Unsupported(st, 'while loop (the spec must declare `loop_fuel` and the raising mode)')
+        if ctx.get('kbreak') is not None or ctx.get('in_loop'):
+            raise Unsupported(st, 'while loop inside another loop')
+        loop = '%s.loop%d' % (self.name, len(self.loops) + 1)
+        self.loops.append(None)
+        idx = len(self.loops) - 1
+        inner = self._forget(ctx, [st])
+        again = '%s k kbreak kexc n s' % loop
+        body_ctx = {'kbreak': 'kbreak s', 'kcontinue': again, 'kexc': 'kexc', 'in_loop': True}
+        if inner.get('nn'):
+            body_ctx['nn'] = inner['nn']
+        ex = self._ex(body_ctx)
+        c = ex.cond(st.test)
+        t_, f_ = narrow(st.test)
+        body = self.block(st.body, again, self._with_nn(body_ctx, body_ctx.get('nn', frozenset()) | t_))
+        step = self._wrap(ex, 'if %s then\n%s\nelse\n  k s' % (c, indent(body)), body_ctx)
+        forever = isinstance(st.test, ast.Constant) and st.test.value is True
+        if forever:                          # `while True:` is left only by break / return / an exception
+            step = body
+        R = self.RT
+        text = ('def %s %s(k kbreak : %s → %s) (kexc : PyExc → %s → %s) : Nat → %s → %s\n'
+                '  | 0, s => %s\n'
+                '  | n + 1, s =>\n%s\n' % (
+                    loop, self.tbinder(), self.st, R, self.st, R, self.st, R,
+                    self.throw('PyExc.OutOfFuel'), indent(step, 4)))
+        self.loops[idx] = text
+        self.loop_texts.append(text)
+        after = self.block(rest, k, inner)
+        kb, prefix = self._share(after)
+        kn, prefix2 = self._share(self.block(st.orelse, kb, inner)) if st.orelse else (kb, '')
+        if forever:
+            if st.orelse:
+                raise Unsupported(st, 'while True ... else')
+            kn = self.throw('PyExc.Other')      # never used: the loop definition does not call `k`
+            if not any(isinstance(n, ast.Break) for n in ast.walk(st)):
+                kb, prefix = kn, ''             # nor `kbreak`: the statements after the loop are unreachable
+
+        def as_fun(term):
+            if term.endswith(' s') and ' ' not in term[:-2] and '\n' not in term:
+                return term[:-2]
+            return paren('fun (s : %s) => %s' % (self.st, term))
+        hx = ctx.get('kexc') or paren('fun (e : PyExc) (s : %s) => %s' % (self.st, self.throw('e')))
+        return prefix + prefix2 + '%s %s %s %s lfuel s' % (loop, as_fun(kn), as_fun(kb), hx)
 
     def _try(self, st: ast.Try, rest, k, ctx):
         """try: A  except E1: B1 ...  [else: C]   (no finally, no `as`, exact classes of PyExc)"""
@@ -1384,6 +1440,10 @@ class FnTranslator:
         parts = [callee['lean_name']]
         if callee['fuel']:
             parts.append('fuel')
+        if callee['spec'].get('loop_fuel'):
+            if not self.loop_fuel:
+                raise Unsupported(node, 'call of a method with `while` loops from one without `loop_fuel`')
+            parts.append('lfuel')
         parts.append('(%s.St.swap s.self)' % self.cls['lean_name'] if peer else 's.self')
         for a, pt in callee['args']:
             parts.append(self._atom(ex.expr(a, pt)[0]))
@@ -1539,10 +1599,14 @@ class FnTranslator:
         for text in self.loop_texts:
             out.append(text)
         plist = ' '.join('(%s : %s)' % (n, self.ptype(t)) for n, t in self.params)
+        if self.loop_fuel:
+            plist = '(lfuel : Nat) ' + plist
         pnames = {n for n, _ in self.params}
         inits = ['self := self'] if self.cls is not None else []
         for n, t in fields:
             inits.append('%s := %s' % (n, n if n in pnames else self.default_of(t)))
+        if self.fuel and self.loop_fuel:
+            raise Unsupported(self.f, '`fuel` and `loop_fuel` together')
         if self.fuel:
             # a (mutually) recursive method: `fuel` = remaining call depth, RecursionError when it runs out
             over = '(.error PyExc.RecursionError, self)' if self.cls_mut else '.error PyExc.RecursionError'
@@ -1552,9 +1616,11 @@ class FnTranslator:
                        '    let s : %s := { %s }\n%s\n' % (
                            self.name, self.tbinder(), plist, R, over, self.st, ', '.join(inits), indent(body, 4)))
             return '\n'.join(out)
-        out.append('def %s.body %s(s : %s) : %s :=\n%s\n' % (self.name, self.tbinder(), self.st, R, indent(body)))
-        out.append('def %s %s%s : %s :=\n  %s.body { %s }\n' % (
-            self.name, self.tbinder(), plist, R, self.name, ', '.join(inits)))
+        lf = '(lfuel : Nat) ' if self.loop_fuel else ''
+        out.append('def %s.body %s%s(s : %s) : %s :=\n%s\n' % (
+            self.name, self.tbinder(), lf, self.st, R, indent(body)))
+        out.append('def %s %s%s : %s :=\n  %s.body %s{ %s }\n' % (
+            self.name, self.tbinder(), plist, R, self.name, 'lfuel ' if self.loop_fuel else '', ', '.join(inits)))
         if self.cls is not None:
             return '\n'.join(out)
         pre = ' && '.join('(%s)' % c for c in self.pre_conjuncts) if self.pre_conjuncts else 'true'
